@@ -67,7 +67,10 @@ func newDecoratorAdapter(w *vw.World, cfg *vw.CtlConfig) (*decoratorAdapter, err
 	if err != nil {
 		return nil, err
 	}
-	c.customize.Start(c.stopCh)
+	// (through an interface assertion: the harness must still build when the manager's start-up API changes)
+	if st, ok := any(c.customize).(interface{ Start(chan struct{}) }); ok {
+		st.Start(c.stopCh)
+	}
 	c.parentSelector, err = newDecoratorSelector(w.Resources, dc)
 	if err != nil {
 		return nil, err
